@@ -39,7 +39,8 @@ META = {
                    "No axioms. Hypotheses: contiguous residue ids, non-empty single-residue blocks (the quantifier's domain)."),
     'rule': ("cases = generated force fields (1-3 blocks of 1-4 atoms with bonds/angles/constraints/dihedrals/pairs/exclusions, "
              "guards, nrexcl 0-4, 0-4 links) x residue graphs of 1-7 residues (path/tree/ring, first residue id 1/2/17) x "
-             "relabellings; non-trivial = at least two residues and one block interaction; distinct by (force-field text, graph)"),
+             "relabellings; non-trivial = at least two residues and one block interaction; distinct by (force-field text, graph)"
+             "; directed / added families (waves 10-12): links with replace statements and [ patterns ]; residue nodes with attributes named like atom attributes"),
 }
 
 PRELUDE = """From PV Require Import Blocks.
